@@ -54,7 +54,7 @@ Definition stored_of (pw : bytes) : bytes := sha1 (sha1 pw).
 Definition verify_decoded (stored : option bytes) (response nonce : bytes) : bool :=
   match stored with
   | None => false
-  | Some h2 => list_eqb (sha1 (xor_bytes response (sha1 (nonce ++ h2)))) h2
+  | Some h2 => Nat.leb 20 (length response) && list_eqb (sha1 (xor_bytes response (sha1 (nonce ++ h2)))) h2   (* a scramble has 20 bytes: a shorter response proves nothing *)
   end.
 
 Definition decode_auth (a : option (list N)) : option bytes :=
